@@ -32,7 +32,7 @@ S = M.struct("S")
 F2, F3, I2 = M.vec("float", 2), M.vec("float", 3), M.vec("int", 2)
 M3 = M.mat("float", 3, 3)
 GLOBALS = [(INT, "gi"), (FLOAT, "gf"), (F3, "gv"), (I2, "gw"), (M.arr(INT, (3,)), "ga"), (S, "gs"),
-           (M.arr(INT, (2, 3)), "g2"), (M3, "gm"), (M.arr(S, (2,)), "gsa"), (M.vec("float", 2), "gp"), (M3, "gn")]
+           (M.arr(INT, (2, 3)), "g2"), (M3, "gm"), (M.arr(S, (2,)), "gsa"), (M.vec("float", 2), "gp"), (M3, "gn"), (F3, "gx")]
 
 
 def lit(v):
@@ -65,6 +65,7 @@ ga, gs, g2, gm, gsa = V("ga", M.arr(INT, (3,))), V("gs", S), V("g2", M.arr(INT, 
 P, Q = V("p", INT), V("q", FLOAT)
 gp = V("gp", F2)
 gn = V("gn", M3)
+gx = V("gx", F3)
 
 
 def fib_function():
@@ -85,7 +86,11 @@ def helper_functions():
     bump = M.Func("bump", [(INT, "n")], INT, M.Block([asg(idx(ga, 2, INT), "=", M.Bin("+", idx(ga, 2, INT), n)),
                                                       M.Return(idx(ga, 2, INT))]), False)
     bump2 = M.Func("bump2", [(INT, "n")], INT, M.Block([M.Return(M.Call("bump", [n], INT, 3))]), False)
-    return [rd, mid, bump, bump2]
+    # assigns a scalar global the caller also reads before and after the call
+    setgi = M.Func("setgi", [(INT, "n")], INT, M.Block([asg(gi, "=", M.Bin("+", M.Bin("+", gi, n), lit(1))), M.Return(n)]), False)
+    # a void helper whose body simply ends (no return statement)
+    tick = M.Func("tick", [(INT, "n")], M.VOID, M.Block([asg(idx(ga, 1, INT), "=", M.Bin("+", idx(ga, 1, INT), n))]), False)
+    return [rd, mid, bump, bump2, setgi, tick]
 
 
 def pmod(n):
@@ -175,6 +180,24 @@ def actions():
     A["direct-global-read"] = lambda k: [asg(gi, "=", M.Bin("+", M.Call("rd", [pmod(3)], INT, 1), lit(1))),
                                         asg(gi, "=", M.Bin("-", M.Call("rd", [pmod(3)], INT, 1), lit(3)))]
 
+    A["read-call-that-writes-read"] = lambda k: [asg(idx(ga, 0, INT), "=", gi), asg(idx(ga, 1, INT), "=", M.Call("setgi", [pmod(3)], INT, 5)),
+                                                asg(idx(ga, 2, INT), "=", gi)]
+
+    def void_helper_loop(k):
+        i = "vi%d" % k
+        return [M.For(M.Decl(INT, i, lit(0)), M.Bin("<", V(i, INT), lit(140)), M.Affix("++", V(i, INT), True),
+                      M.Block([M.ExprStmt(M.Call("tick", [lit(1)], M.VOID, 6))]))]
+    A["void-helper-in-loop"] = void_helper_loop
+    # a global copied into another global (or a local), then changed through an index: the copy keeps its value
+    A["snapshot-then-index-store"] = lambda k: [asg(gx, "=", gv), asg(idx(gv, pmod(3), FLOAT), "=", M.Bin("+", idx(gv, 1, FLOAT), Q)),
+                                               asg(gn, "=", gm), asg(idx(idx(gm, 1, F3), pmod(3), FLOAT), "+=", Q)]
+    A["index-store-global-vector"] = lambda k: [asg(idx(gv, pmod(3), FLOAT), "+=", Q), asg(idx(gm, pmod(3), F3), "=", gv)]
+
+    def local_snapshot(k):
+        t = V("sn%d" % k, F3)
+        return [M.Decl(F3, t.name, gv), asg(idx(gv, 0, FLOAT), "=", M.Bin("+", idx(gv, 0, FLOAT), flit(1))),
+                asg(gf, "=", M.Bin("-", idx(gv, 0, FLOAT), idx(t, 0, FLOAT)))]
+    A["local-snapshot-then-index-store"] = local_snapshot
     # matrix products: one kept in a local across a second product of the same shape; one stored in a global that
     # later invocations only read
     def matrix_product(k):
